@@ -57,13 +57,13 @@ Theorem C20_solo : forall sh i n st t o m1,
              /\ exists rest, out t' ++ rest = o.
 Proof. exact solo_generic. Qed.
 
-Theorem C20_entry_points : forall f mem o, writable mem = true ->
+Theorem C20_entry_points : forall f mem o, writable mem = true -> plain_op o = true ->
   sem Allow (prog (S f) mem o) = Some (spec_out mem o, Allow).
 Proof. exact sem_prog. Qed.
 
 Theorem C20_scenario : forall sc sched i o,
   writable (members sc) = true ->
-  nth_error (ops sc) i = Some o ->
+  nth_error (ops sc) i = Some o -> plain_op o = true ->
   exists t', nth_error (thr (run false sched (init sc))) i = Some t' /\ dead t' = false /\ files_ok t'
              /\ (finished t' = true -> out t' = spec_out (members sc) o)
              /\ exists rest, out t' ++ rest = spec_out (members sc) o.
@@ -71,7 +71,7 @@ Proof. exact scenario_independent. Qed.
 
 Theorem C20_scenario_solo : forall sh sc n i o,
   writable (members sc) = true ->
-  nth_error (ops sc) i = Some o ->
+  nth_error (ops sc) i = Some o -> plain_op o = true ->
   exists t', nth_error (thr (run sh (repeat i n) (init sc))) i = Some t' /\ dead t' = false
              /\ (finished t' = true -> out t' = spec_out (members sc) o).
 Proof. exact scenario_solo. Qed.
@@ -81,7 +81,7 @@ Proof. exact run_coarse_is_run. Qed.
 
 Theorem C20_scenario_coarse : forall sc cs i o t',
   writable (members sc) = true ->
-  nth_error (ops sc) i = Some o ->
+  nth_error (ops sc) i = Some o -> plain_op o = true ->
   nth_error (thr (run_coarse false cs (init sc))) i = Some t' ->
   files_ok t' /\ dead t' = false /\ (finished t' = true -> out t' = spec_out (members sc) o).
 Proof. exact scenario_independent_coarse. Qed.
@@ -107,7 +107,7 @@ Proof. exact shared_readers_independent. Qed.
 
 Theorem C20_shared_guarded : forall sc sched i o,
   writable (members sc) = true ->
-  nth_error (ops sc) i = Some o ->
+  nth_error (ops sc) i = Some o -> plain_op o = true ->
   Shared_mode_race (changed0 sc) (thr (init sc)) i = false ->
   exists t', nth_error (thr (run true sched (init sc))) i = Some t' /\ dead t' = false /\ files_ok t'
              /\ (finished t' = true -> out t' = spec_out (members sc) o)
